@@ -66,3 +66,7 @@ add("C12", "exploration", "runtime monitor: mirrored source/partial trie pair co
 add("C13", "exploration", "runtime monitor: checkpoint model + storage key-set differences (S0/S1/S2 from the logging adapter) + reopen check around both rollback entry points",
     "24 000 (quick) / 400 000 (thorough) checkpoint/commit/rollback histories with every change kind (new, changed, unchanged re-write, delete-and-re-add, delete), optional GC passes, both Rollback and RollbackTrie; root, weight, full observational check on the live and a reopened trie, no node created only by the rolled-back commit survives; two GC passes after the rollback in a quarter of the cases.",
     "At most one GC pass between commit and rollback (property's domain).")
+
+add("C15", "exploration", "runtime monitor: mutation-based decoder stress from run-time harvested real encodings, panic/fatal/stall oracle with the input written to disk before every call",
+    "480 (quick) / 12 800 (thorough) cases, about 3.3 million (quick) derived inputs through CreateNode, DeserializeNode, Deserialize and VerifyBlockProof: exhaustive truncations and first-byte values, separator removal, CBOR head inflation, blob lengths 0..80/0..140, 0..20 children, nil/foreign elements, crafted CBOR, bit flips, random bytes; accepted inputs are re-encoded; panics are violations, worker deaths and 60 s stalls are reported with the on-disk input.",
+    "Near-valid derivations and random strings up to 64 KiB, not all byte strings; stall threshold 60 s for calls that normally take microseconds.")
